@@ -9,7 +9,7 @@
    versions, non-relation members are dropped by [rel_members]).  The model is tied to the
    implementation by correspondence on the exact emission sequence (harness/cmd/c14). *)
 From Coq Require Import ZArith List Bool Lia.
-From Verif Require Import C14.Model C14.Proofs C14.ProofsTerm C14.ProofsOrder.
+From Verif Require Import C14.Model C14.Proofs C14.ProofsTerm C14.ProofsOrder C14.ProofsProto.
 Import ListNotations.
 Open Scope Z_scope.
 
@@ -99,21 +99,40 @@ Proof.
 Qed.
 Print Assumptions C14_acyclicb_no_cycle.
 
-(* 7. Close or context cancellation at any point (transition system of Model.v: producer
-      between lookups and sends / inside a datasource lookup that was handed the DERIVED context
-      and honours it / blocked in the select / returned; cancellation may happen in any state):
-      afterwards at most two more steps are possible, nothing more is delivered (Next returns
-      false), the system cannot get stuck before the producer has returned, and a returned
-      producer stays returned. *)
+(* 7. Close or context cancellation at any point.  The transition system of Model.v runs the
+      producer's PROGRAM -- the finite sequence of datasource lookups and sends the walk performs,
+      [program ds fuel ids]; its sends are exactly the ids of theorems 1-6 (7a) -- against a
+      consumer that may call Next, Close or cancel the parent context at any moment.  The context
+      is consulted where the Go code consults it: not before a lookup; a lookup in progress may
+      return its answer (datasources that ignore the context, like osm.HistoryDatasource) or,
+      once cancelled, end with the context's error (datasources that honour the derived context
+      they are handed); before every send, and in the select of the send.
+      After the cancellation (7b): only finitely many steps are possible -- at most the lookups
+      left before the next send, each started and returned, plus two; for the real producer at
+      most 2*|program|+1 (7c) -- at most ONE more id is delivered (to a Next already waiting when
+      the cancellation happened: Go's select may take either ready case), the system cannot get
+      stuck before the producer has returned (7d), and a returned producer stays returned (7e).
+      Assumption: every lookup returns (with an answer, or with the context's error). *)
+Theorem C14_program_is_the_walk : forall ds fuel ids,
+  order ds fuel ids = (fst (program ds fuel ids), sends (snd (program ds fuel ids))).
+Proof. exact program_order. Qed.
+Print Assumptions C14_program_is_the_walk.
+
 Theorem C14_close_terminates : forall s n s',
   cancelled s = true -> steps n s s' ->
-  (n <= after_cancel_bound (prod s))%nat /\ received s' = received s /\ cancelled s' = true.
+  (n <= after_cancel_bound (prod s))%nat /\ cancelled s' = true /\
+  (received s' = received s \/ exists id p, prod s = PSend id p /\ received s' = received s ++ [id]).
 Proof. exact close_terminates. Qed.
 Print Assumptions C14_close_terminates.
+
+Theorem C14_close_bound_by_program : forall prog c r,
+  (after_cancel_bound (prod {| prod := PRun prog; cancelled := c; received := r |}) <= 2 * length prog + 1)%nat.
+Proof. exact close_bound_program. Qed.
 
 Theorem C14_close_no_deadlock : forall s,
   cancelled s = true -> prod s <> PDone -> exists s', step s s'.
 Proof. exact cancelled_progress. Qed.
+Print Assumptions C14_close_no_deadlock.
 
 Theorem C14_done_is_final : forall s s', prod s = PDone -> step s s' ->
   prod s' = PDone /\ received s' = received s.
@@ -173,16 +192,39 @@ Qed.
 Example ex_dag_run : order ex_dag 7 [1; 4] = (SOk, [4; 2; 3; 1]).
 Proof. vm_compute. reflexivity. Qed.
 
-(* Close while the datasource is inside a lookup: the lookup ends on the derived context *)
+(* the chain 1 -> 2 -> 3 requested as [1], cancelled before the first Next, with a datasource that
+   ignores the context: three lookups are still made (started and returned) before the walk
+   reaches the context test in front of its first send *)
+Definition ex_chain (id : Z) : hist :=
+  if id =? 1 then HFound [[(true, 2)]] else if id =? 2 then HFound [[(true, 3)]]
+  else if id =? 3 then HFound [[]] else HNotFound.
+
+Example ex_chain_program : program ex_chain 6 [1] = (SOk, [ALookup; ALookup; ALookup; ASend 3; ASend 2; ASend 1]).
+Proof. vm_compute. reflexivity. Qed.
+
+Example ex_lts_cancel_ignoring_datasource :
+  steps 7 {| prod := PRun [ALookup; ALookup; ALookup; ASend 3; ASend 2; ASend 1]; cancelled := true; received := [] |}
+          {| prod := PDone; cancelled := true; received := [] |}
+  /\ after_cancel_bound (PRun [ALookup; ALookup; ALookup; ASend 3; ASend 2; ASend 1]) = 7%nat.
+Proof.
+  split; [|reflexivity].
+  eapply steps_S; [apply st_lookup_start|]. eapply steps_S; [apply st_lookup_return|].
+  eapply steps_S; [apply st_lookup_start|]. eapply steps_S; [apply st_lookup_return|].
+  eapply steps_S; [apply st_lookup_start|]. eapply steps_S; [apply st_lookup_return|].
+  eapply steps_S; [apply st_walk_cancelled|]. apply steps_O.
+Qed.
+
+(* Close while a context-honouring datasource is inside a lookup *)
 Example ex_lts_close_in_lookup :
-  steps 1 {| prod := PLookup [5; 6]; cancelled := true; received := [4] |}
+  steps 1 {| prod := PLookup [ASend 5; ASend 6]; cancelled := true; received := [4] |}
           {| prod := PDone; cancelled := true; received := [4] |}.
 Proof. eapply steps_S; [apply st_lookup_cancelled|]. apply steps_O. Qed.
 
-Example ex_lts_close :
-  steps 2 {| prod := PRun [5; 6]; cancelled := true; received := [4] |}
-          {| prod := PDone; cancelled := true; received := [4] |}.
-Proof. eapply steps_S; [apply st_walk_send|]. eapply steps_S; [apply st_send_cancelled|]. apply steps_O. Qed.
+(* a Next already waiting when the context is cancelled may still get the id *)
+Example ex_lts_last_delivery :
+  steps 2 {| prod := PSend 5 [ASend 6]; cancelled := true; received := [4] |}
+          {| prod := PDone; cancelled := true; received := [4; 5] |}.
+Proof. eapply steps_S; [apply st_rendezvous|]. eapply steps_S; [apply st_walk_cancelled|]. apply steps_O. Qed.
 
 Example ex_dag_acyclicb : acyclicb ex_dag [1; 2; 3; 4] = true /\ acyclicb ex_cyc [1; 2; 3; 4] = false.
 Proof. vm_compute. split; reflexivity. Qed.
